@@ -2793,3 +2793,27 @@ impl Melda {
             .collect()
     }
 }
+
+/// Verification hook H3 (only with `--cfg melda_verif`): read-only dump of the
+/// revision tree of an object as (revision, parent, staged) triples.
+#[cfg(melda_verif)]
+impl Melda {
+    pub fn verif_tree(&self, uuid: &str) -> Option<Vec<(String, Option<String>, bool)>> {
+        let docs_r = self.documents.read().unwrap();
+        let rt = docs_r.get(uuid)?;
+        let rt_r = rt.lock().unwrap();
+        let mut v: Vec<(String, Option<String>, bool)> = rt_r
+            .get_revisions()
+            .iter()
+            .map(|(r, e)| {
+                (
+                    r.to_string(),
+                    e.get_parent().as_ref().map(|p| p.to_string()),
+                    e.is_staging(),
+                )
+            })
+            .collect();
+        v.sort();
+        Some(v)
+    }
+}
